@@ -33,11 +33,13 @@ ghostvar gm int
 ghostvar gov int
 ghostvar gu0 int
 ghostvar gi5 int
+ghostvar gi1 int
+ghostvar gp0 int
 -- number of base-b digits of u (specification function; its defining equations and the bound 64 for 64-bit
 -- values are mathematical facts taken as axioms)
 assume pure func nd(b int, u int) (n int)
   requires b >= 2 && 0 <= u && u <= 9223372036854775807 * 2 + 1
-  ensures 1 <= n && n <= 64
+  ensures 1 <= n && n <= 64 && (b == 16 ==> n <= 16) && (b == 8 ==> n <= 22) && (b == 10 ==> n <= 20)
   ensures u < b ==> n == 1
   ensures u >= b ==> n == 1 + nd(b, u / b)
 pred AsAt(p *pp) = p.buf.mode == gm && p.override == gov && p.buf.gctx == gov
@@ -239,13 +241,17 @@ func (f *fmt) fmtQ(s string)
 -- part of the panic sweep yet (nosweep): only mode/flag preservation and the site obligations are proved.
 
 func (f *fmt) fmtUnicode(u uint64)
-  nosweep
   requires f.buf != nil && inv(f.buf) && f.buf.mode != SafeRaw && WP(f)
   requires [C02] S1(f.buf, 2)
   requires [C06] S2(f.buf)
   requires [C05,C06] S3(f.buf)
+  ghost gu0 = u before "i := len(buf)"
+  ghost gp0 = prec before "i := len(buf)"
+  ghost gi5 = i after "buf[i] = udigits[u]"
   loop 1 invariant memKeptExcept(f.intbuf)
   loop 2 invariant memKeptExcept(f.intbuf)
+  loop 1 invariant [C11] 0 <= u && u <= gu0 && nd(16, u) <= nd(16, gu0) && 4 <= gp0 && gp0 + 9 <= len(buf) && len(buf) >= 68 && prec == gp0 - (nd(16, gu0) - nd(16, u)) && i + (nd(16, gu0) - nd(16, u)) <= len(buf) && i + (nd(16, gu0) - nd(16, u)) >= len(buf) - 7
+  loop 2 invariant [C11] 4 <= gp0 && gp0 + 9 <= len(buf) && len(buf) >= 68 && gi5 + nd(16, gu0) >= len(buf) - 7 && gi5 < len(buf) && i - prec == gi5 - (gp0 - nd(16, gu0)) && (prec >= 0 || prec == gp0 - nd(16, gu0)) && i <= gi5
   modifies f, f.buf
   ensures inv(f.buf) && BK(f.buf) && FK(f)
 
@@ -271,7 +277,6 @@ func (f *fmt) fmtInteger(u uint64, base int, isSigned bool, verb rune, digits st
   ensures inv(f.buf) && BK(f.buf) && FK(f)
 
 func (f *fmt) fmtC(c uint64)
-  nosweep
   requires f.buf != nil && inv(f.buf) && f.buf.mode != SafeRaw && WP(f)
   requires [C02] S1(f.buf, 2)
   requires [C06] S2(f.buf)
@@ -280,7 +285,6 @@ func (f *fmt) fmtC(c uint64)
   ensures inv(f.buf) && BK(f.buf) && FK(f)
 
 func (f *fmt) fmtQc(c uint64)
-  nosweep
   requires f.buf != nil && inv(f.buf) && f.buf.mode != SafeRaw && WP(f)
   requires [C02] S1(f.buf, 2)
   requires [C06] S2(f.buf)
